@@ -1,4 +1,9 @@
 //! Registry of per-property checks.
+pub mod c03;
+pub mod c04;
+pub mod c05;
+pub mod c06;
+pub mod c07;
 pub mod c08;
 pub mod c09;
 pub mod c11;
@@ -7,6 +12,7 @@ pub mod c13;
 pub mod c14;
 pub mod c15;
 pub mod c16;
+pub mod sweep;
 
 use crate::run::{Acc, Ctx};
 
@@ -31,6 +37,11 @@ macro_rules! registry {
 }
 
 registry! {
+    "C03" => c03,
+    "C04" => c04,
+    "C05" => c05,
+    "C06" => c06,
+    "C07" => c07,
     "C08" => c08,
     "C09" => c09,
     "C11" => c11,
